@@ -172,10 +172,28 @@ func (tr *fnTrans) setHeap(name, term string) {
 // atStep: elements of slices whose cells are untouched by a heap step read the same in both versions.
 // `touched` is a formula over s!s, k!s describing the cells the step may change.  Both versions are
 // triggers, so an element term in one version produces its counterpart in the other.
-func (tr *fnTrans) atStep(name, h0, h1, touched string) {
+func (tr *fnTrans) atStep(name, h0, h1, touched string, touchedSlice ...string) {
 	hi := tr.maps[name]
 	if !hi.isArr || h0 == h1 {
 		return
+	}
+	// spec functions declared `;; heapfn: f` depend only on the contents of their slice argument
+	if len(touchedSlice) == 1 {
+		for _, hf := range tr.v.prelude.HeapFns {
+			sig := tr.v.prelude.Sigs[hf]
+			if sig == nil || len(sig.Args) < 2 || sig.Args[0] != "AH_"+hi.elem.Tag() {
+				continue
+			}
+			var decl, args []string
+			for i, a := range sig.Args[2:] {
+				decl = append(decl, fmt.Sprintf("(x!%d %s)", i, a))
+				args = append(args, fmt.Sprintf("x!%d", i))
+			}
+			t1 := app(hf, append([]string{h1, "s!s"}, args...)...)
+			t0 := app(hf, append([]string{h0, "s!s"}, args...)...)
+			tr.hyp(fmt.Sprintf("(forall ((s!s Slice) %s) (! (=> (not %s) (= %s %s)) :pattern (%s) :pattern (%s)))",
+				strings.Join(decl, " "), touchedSlice[0], t1, t0, t1, t0))
+		}
 	}
 	at := "at_" + hi.elem.Tag()
 	tr.hyp(fmt.Sprintf("(forall ((s!s Slice) (k!s Int)) (! (=> (not %s) (= (%s %s s!s k!s) (%s %s s!s k!s))) :pattern ((%s %s s!s k!s)) :pattern ((%s %s s!s k!s))))",
@@ -348,6 +366,8 @@ func (tr *fnTrans) wf(t Term, alloc string) string {
 		return "true"
 	}
 	switch {
+	case t.T == SVal:
+		return implies(app("(_ is VSet)", t.S), app("wfslice", app("vset", t.S), alloc))
 	case t.T.Name == "Slice":
 		return app("wfslice", t.S, alloc)
 	case t.T.Name == "Int" && t.T.Elem != nil:
@@ -437,7 +457,7 @@ func (tr *fnTrans) storeTo(l *Loc, v Term, pos token.Pos) {
 	newRoot := tr.update(tr.rootTerm(l, h), l.root, l.path, v.S)
 	if l.isArr {
 		tr.setHeap(l.heap, store(h, l.obj, store(sel(h, l.obj), l.idx, newRoot)))
-		tr.atStep(l.heap, h, tr.curHeap(l.heap), and(app("=", "(sarr s!s)", l.obj), app("=", "(+ (soff s!s) k!s)", l.idx)))
+		tr.atStep(l.heap, h, tr.curHeap(l.heap), and(app("=", "(sarr s!s)", l.obj), app("=", "(+ (soff s!s) k!s)", l.idx)), app("=", "(sarr s!s)", l.obj))
 	} else {
 		tr.setHeap(l.heap, store(h, l.obj, newRoot))
 	}
@@ -571,6 +591,9 @@ func (tr *fnTrans) run() {
 	}
 	if c.Trusted || len(fn.Blocks) == 0 {
 		return
+	}
+	if c.Pure {
+		tr.checkPure()
 	}
 	tr.findLoops()
 	nAst := loopCountAST(fn)
@@ -1160,11 +1183,43 @@ func (tr *fnTrans) havocLoop(li *loopInfo, b *ssa.BasicBlock) {
 	}
 	for _, m := range maps {
 		tr.hyp(tr.frameFormula(m, tr.heapEntry(m), tr.heap[m], "alloc0", tr.modTerms))
-		tr.atStep(m, tr.heapEntry(m), tr.heap[m], tr.touchedByMods("alloc0", m, tr.modTerms))
+		tr.atStep(m, tr.heapEntry(m), tr.heap[m], tr.touchedByMods("alloc0", m, tr.modTerms), tr.touchedByMods("alloc0", m, tr.modTerms))
 	}
 	save := tr.cur
 	tr.cur = b
 	cov := tr.oblige("cover", fmt.Sprintf("cover[loop%d]", li.ord), "false", "", token.NoPos)
 	cov.Cover = true
 	tr.cur = save
+}
+
+// checkPure: a contract marked `pure` promises no heap effect at all (callers keep their heap);
+// the body may therefore not store, allocate, append, copy or call anything that is not pure.
+func (tr *fnTrans) checkPure() {
+	for _, b := range tr.fn.Blocks {
+		for _, in := range b.Instrs {
+			switch in := in.(type) {
+			case *ssa.Store, *ssa.MapUpdate, *ssa.MakeSlice, *ssa.MakeMap, *ssa.MakeClosure, *ssa.Go, *ssa.Defer, *ssa.Send:
+				tr.errorf("%s is declared pure but contains %T", tr.key, in)
+			case *ssa.Alloc:
+				tr.errorf("%s is declared pure but allocates", tr.key)
+			case *ssa.Call:
+				cm := in.Common()
+				if bi, ok := cm.Value.(*ssa.Builtin); ok {
+					if bi.Name() != "len" && bi.Name() != "cap" {
+						tr.errorf("%s is declared pure but calls builtin %s", tr.key, bi.Name())
+					}
+					continue
+				}
+				var c *Contract
+				if cm.IsInvoke() {
+					c = tr.v.contracts[shortType(cm.Value.Type())+"."+cm.Method.Name()]
+				} else if f, ok := cm.Value.(*ssa.Function); ok {
+					c = tr.v.contracts[fnKey(f)]
+				}
+				if c == nil || !c.Pure {
+					tr.errorf("%s is declared pure but calls a function that is not", tr.key)
+				}
+			}
+		}
+	}
 }
